@@ -228,9 +228,13 @@ SrcOf(n) == CASE n = "starting_trigger" -> {"starting"}
               [] n = "update_trigger" -> {"running"}
               [] n = "loading_trigger" -> {"updating"}
               [] n = "updating_trigger" -> {"archiving"}
+(* triggers that begin a transition of the machine itself are not allowed while it is busy
+   (transitioning # active): their `before` step is the busy check *)
+Guarded == {"starting_trigger", "archiving_trigger", "loading_trigger"}
+NotAllowed(n) == st \notin SrcOf(n) \/ (n \in Guarded /\ tr # "active")
 RawTrigger(n) ==
     /\ nraw < MaxRaw /\ nraw' = nraw + 1
-    /\ st \notin SrcOf(n)
+    /\ NotAllowed(n)
     /\ rejected' = TRUE /\ fire' = NoFire /\ path' = <<st>>
     /\ UNCHANGED <<st, tr, prior, bg, arch, prio, wait, slot, busy, doing, que, sub, subp, nfired, nsub, nenv, ncyc>>
 
